@@ -247,11 +247,37 @@ Definition dec_info_float_gen (array : bool) (bs : list N) : rres rvalue :=
 Definition dec_info_float := dec_info_float_gen false.
 Definition dec_info_floats := dec_info_float_gen true.
 
+(* ------------------------------------------------------------------ UTF-8 *)
+(* str::from_utf8: well-formed UTF-8 (no overlong forms, no surrogates, nothing above U+10FFFF) *)
+Definition cont (b : N) : bool := ((128 <=? b) && (b <=? 191))%N.
+
+Fixpoint utf8_valid (s : list N) : bool :=
+  match s with
+  | [] => true
+  | b :: r =>
+    if (b <? 128)%N then utf8_valid r
+    else if ((194 <=? b) && (b <=? 223))%N then
+      match r with c1 :: r1 => cont c1 && utf8_valid r1 | _ => false end
+    else if (b =? 224)%N then
+      match r with c1 :: c2 :: r2 => ((160 <=? c1) && (c1 <=? 191))%N && cont c2 && utf8_valid r2 | _ => false end
+    else if (((225 <=? b) && (b <=? 236)) || ((238 <=? b) && (b <=? 239)))%N then
+      match r with c1 :: c2 :: r2 => cont c1 && cont c2 && utf8_valid r2 | _ => false end
+    else if (b =? 237)%N then
+      match r with c1 :: c2 :: r2 => ((128 <=? c1) && (c1 <=? 159))%N && cont c2 && utf8_valid r2 | _ => false end
+    else if (b =? 240)%N then
+      match r with c1 :: c2 :: c3 :: r3 => ((144 <=? c1) && (c1 <=? 191))%N && cont c2 && cont c3 && utf8_valid r3 | _ => false end
+    else if ((241 <=? b) && (b <=? 243))%N then
+      match r with c1 :: c2 :: c3 :: r3 => cont c1 && cont c2 && cont c3 && utf8_valid r3 | _ => false end
+    else if (b =? 244)%N then
+      match r with c1 :: c2 :: c3 :: r3 => ((128 <=? c1) && (c1 <=? 143))%N && cont c2 && cont c3 && utf8_valid r3 | _ => false end
+    else false
+  end.
+
 (* ------------------------------------------------------------------ INFO String (bytes) *)
 Definition enc_info_string (s : list N) : res (list N) :=
   bind (enc_type 7 (Z.of_nat (length s))) (fun d => Ok (d ++ s)).
 
-(* read back: None when the length is 0, else the bytes *)
+(* read back: None when the length is 0, else the bytes, which must be UTF-8 *)
 Definition dec_info_string (bs : list N) : rres (option (list N)) :=
   match read_type bs with
   | None => RErr
@@ -259,7 +285,10 @@ Definition dec_info_string (bs : list N) : rres (option (list N)) :=
     if code =? 0 then ROk None
     else if code =? 7 then
       if len =? 0 then ROk None
-      else match take (Z.to_nat len) r with Some (x, _) => ROk (Some x) | None => RErr end
+      else match take (Z.to_nat len) r with
+           | Some (x, _) => if utf8_valid x then ROk (Some x) else RErr      (* InvalidString *)
+           | None => RErr
+           end
     else RErr
   end.
 
